@@ -127,6 +127,12 @@ func enumObligations(fn *ssa.Function) []bndOb {
 				if _, isC := cc.Args[1].(*ssa.Const); !isC {
 					add(in, "libpanic", "count>=0:"+shortCallee(x)+"("+pathOf(cc.Args[1])+")")
 				}
+			case name == "(*bytes.Buffer).Grow" || name == "(*strings.Builder).Grow" || strings.HasPrefix(name, "slices.Grow["):
+				// panics for a negative count and when the buffer cannot be allocated (ErrTooLarge / out of memory):
+				// the count must be non-negative and bounded by something that exists in memory
+				if _, isC := cc.Args[1].(*ssa.Const); !isC {
+					add(in, "libpanic", "grow:"+shortCallee(x)+"("+pathOf(cc.Args[1])+")")
+				}
 			case strings.HasPrefix(name, "slices.Delete["):
 				add(in, "libpanic", "range:"+shortCallee(x)+"("+pathOf(cc.Args[1])+","+pathOf(cc.Args[2])+")")
 			}
